@@ -71,7 +71,14 @@ func harnessNamesInDir(dir string) []string {
 // and the list of package patterns.
 func writeOverlay(repoDir, verifDir, dir string, pkgs map[string]bool) (string, []string, error) {
 	repl := map[string]string{}
-	repl[filepath.Join(repoDir, "zzverif", "zzverif.go")] = filepath.Join(verifDir, "zzverif", "zzverif.go")
+	zzroot := filepath.Join(verifDir, "zzverif")
+	filepath.Walk(zzroot, func(path string, info os.FileInfo, err error) error {
+		if err == nil && !info.IsDir() && strings.HasSuffix(path, ".go") {
+			rel, _ := filepath.Rel(zzroot, path)
+			repl[filepath.Join(repoDir, "zzverif", rel)] = path
+		}
+		return nil
+	})
 	var patterns []string
 	root := filepath.Join(verifDir, "harness")
 	var rels []string
